@@ -277,6 +277,8 @@ struct Outcome {
     canary_max_lag_ms: u64,
     wall_ms: u64,
     setup_error: Option<String>,
+    diag_a: String,
+    diag_b: String,
 }
 
 #[derive(Clone, Debug, PartialEq)]
@@ -353,6 +355,8 @@ async fn run_scenario(scn: &Scenario, watchdog: Duration) -> Outcome {
         canary_max_lag_ms: 0,
         wall_ms: 0,
         setup_error: None,
+        diag_a: String::new(),
+        diag_b: String::new(),
     };
     let rig = build_rig(RigCfg {
         cfg: scn.rtc_config(),
@@ -661,6 +665,8 @@ async fn run_scenario(scn: &Scenario, watchdog: Duration) -> Outcome {
     }
     stop_send.store(true, Ordering::SeqCst);
     out.end = end;
+    out.diag_a = format!("{} buffered={}", rig.a.sctp.diagnostic_info(), rig.a.sctp.buffered_amount());
+    out.diag_b = format!("{} buffered={}", rig.b.sctp.diagnostic_info(), rig.b.sctp.buffered_amount());
     out.closed_a = rig.a.sctp.close_reason();
     out.closed_b = rig.b.sctp.close_reason();
     out.heal_t_us = rig.wire.heal_time();
@@ -1006,7 +1012,13 @@ fn oracle_c01(o: &Outcome) -> (Verdict, bool) {
                     format!("after the network healed and with neither side closed, delivery never completed ({form} witness: {w})"),
                     json!({"witness": w, "plan": o.scn.plan.to_json(), "rules_fired": o.rules_fired,
                            "random_faults": o.random_faults, "heal_t_us": o.heal_t_us,
-                           "canary_max_lag_ms": o.canary_max_lag_ms,
+                           "canary_max_lag_ms": o.canary_max_lag_ms, "diag_a": o.diag_a, "diag_b": o.diag_b,
+                           "missing": missing_submissions(o),
+                           "last_a_rwnd_handed_to_a": o.tap_a.iter().rev().find_map(|e| if !e.tx { e.pkt.sacks().next().map(|s| s.a_rwnd) } else { None }),
+                           "last_a_rwnd_handed_to_b": o.tap_b.iter().rev().find_map(|e| if !e.tx { e.pkt.sacks().next().map(|s| s.a_rwnd) } else { None }),
+                           "data_wire_tail": data_wire_tail(o),
+                           "tap_tail_a": o.tap_a.iter().rev().take(14).rev().map(|e| format!("{} {} {}", e.t_us, if e.tx {"TX"} else {"RX"}, e.pkt.summary().chars().take(140).collect::<String>())).collect::<Vec<_>>(),
+                           "tap_tail_b": o.tap_b.iter().rev().take(14).rev().map(|e| format!("{} {} {}", e.t_us, if e.tx {"TX"} else {"RX"}, e.pkt.summary().chars().take(140).collect::<String>())).collect::<Vec<_>>(),
                            "submitted": o.submits.len(),
                            "delivered": o.chans.iter().map(|c| c.events.iter().filter(|e| matches!(e, ChEv::Msg{..})).count()).sum::<usize>(),
                            "wire_head": wire_excerpt(o, 40)}),
@@ -1023,6 +1035,44 @@ fn oracle_c01(o: &Outcome) -> (Verdict, bool) {
         ),
         EndReason::Setup => (Verdict::Inconclusive("setup".into()), false),
     }
+}
+
+fn missing_submissions(o: &Outcome) -> Vec<String> {
+    let mut got: HashSet<u64> = HashSet::new();
+    for c in &o.chans {
+        for e in &c.events {
+            if let ChEv::Msg { hash, .. } = e {
+                got.insert(*hash);
+            }
+        }
+    }
+    o.submits
+        .iter()
+        .filter(|s| s.ok && !got.contains(&s.hash))
+        .take(12)
+        .map(|s| format!("{}:ch{}:snd{}:#{}:{}B", s.side, s.ch, s.sender, s.counter, s.len))
+        .collect()
+}
+
+fn data_wire_tail(o: &Outcome) -> Vec<String> {
+    let v: Vec<&crate::wire::Captured> = o
+        .wire
+        .iter()
+        .filter(|c| c.sctp.as_ref().map(|p| p.has(sctprd::CT_DATA)).unwrap_or(false))
+        .collect();
+    v.iter()
+        .skip(v.len().saturating_sub(10))
+        .map(|c| {
+            format!(
+                "{} {} {} fault={:?} deliveries={}",
+                c.t_us,
+                c.dir.name(),
+                c.sctp.as_ref().map(|p| p.summary()).unwrap_or_default().chars().take(150).collect::<String>(),
+                c.fault,
+                c.deliveries.len()
+            )
+        })
+        .collect()
 }
 
 fn saw_retransmission(o: &Outcome) -> bool {
